@@ -79,12 +79,21 @@ Definition k_waitpid (p : proc) (idx : nat) (t : Q) (nohang : bool) : wp :=
     end
   end.
 
-(* kill(pid, 0) succeeds: the PID is in the process table *)
+(* kill(pid, 0) succeeds: the PID is in the process table.  A non-child leaves the table at its `exit` instant
+   (= reaped by its own parent).  OUR child stays in the table as a zombie after it has ended, until we reap it
+   (checked against the running kernel: kill(pid, 0) on an unreaped zombie succeeds) -- the reaped situation is
+   k_exists_reaped below *)
 Definition k_exists (p : proc) (t : Q) : bool :=
   match p_kind p with
   | NeverExisted => false
-  | _ => negb (ended_by p t)
+  | NonChild => negb (ended_by p t)
+  | Child => true
   end.
+
+(* once somebody has reaped the child: waitpid says "no such child", and the PID is in the table only if the
+   kernel has handed it to a stranger *)
+Definition k_waitpid_reaped : nat -> Q -> bool -> wp := fun _ _ _ => WEchild.
+Definition k_exists_reaped (reused : bool) : Q -> bool := fun _ => reused.
 
 Definition to_ko (p : proc) : koracle :=
   {| ko_wp := k_waitpid p; ko_ex := k_exists p; ko_pid := p_pid p |}.
